@@ -69,6 +69,13 @@ pub open spec fn sym_define_symbol(t: SymbolTable, name: Seq<char>) -> Symbol { 
 /// the names of the innermost scope of the current context, in declaration order
 pub open spec fn sym_params(t: SymbolTable) -> Seq<Seq<char>> { ctx_view(t.contexts@.last()).last() }
 pub open spec fn sym_max_size(t: SymbolTable) -> usize { ctx_max_size(t.contexts@.last()) }
+/// the names of the outermost scope of the GLOBAL context, in declaration order (slot i holds name i)
+pub open spec fn sym_global_names(t: SymbolTable) -> Seq<Seq<char>> { ctx_view(t.contexts@[0])[0] }
+/// the outermost global scope is only ever appended to: its first names keep their slots
+pub open spec fn sym_globals_kept(a: SymbolTable, b: SymbolTable) -> bool {
+    sym_global_names(a).len() <= sym_global_names(b).len()
+        && forall|i: int| 0 <= i < sym_global_names(a).len() ==> #[trigger] sym_global_names(b)[i] == sym_global_names(a)[i]
+}
 /// every context but the current one is untouched
 pub open spec fn sym_others_same(a: SymbolTable, b: SymbolTable) -> bool {
     b.contexts@.len() == a.contexts@.len() && b.contexts@.drop_last() =~= a.contexts@.drop_last()
